@@ -38,7 +38,10 @@ pub fn run_lattice(case: &Value) -> Value {
     let h = vfs(&case["h"]);          // arrays for the site-specific variants
     let j = vfs(&case["j"]);
     let pool = rayon::ThreadPoolBuilder::new().num_threads(threads).build().unwrap();
-    let r: Option<Result<SumOp, quant_iron::errors::Error>> = pool.install(|| match kind {
+    // "prev": parameter lists of earlier calls of the same builder made first on the same thread (their results are dropped):
+    // what a builder returns must not depend on what it was asked before
+    let prev: Vec<Vec<f64>> = case.get("prev").and_then(|v| v.as_array()).map(|a| a.iter().map(vfs).collect()).unwrap_or_default();
+    let r: Option<Result<SumOp, quant_iron::errors::Error>> = pool.install(|| { let call = |p: &[f64]| match kind {
         "ising_1d_uniform" => Some(ising::ising_1d_uniform(n, p[0], p[1], p[2])),
         "ising_2d_uniform" => Some(ising::ising_2d_uniform(n, m, p[0], p[1], p[2])),
         "heisenberg_1d" => Some(heisenberg::heisenberg_1d(n, p[0], p[1], p[2], p[3], p[4])),
@@ -46,7 +49,7 @@ pub fn run_lattice(case: &Value) -> Value {
         "ising_1d" => ising1d_dispatch!(n, h, j, p[0], [0, 1, 2, 3, 4, 5, 6, 7, 8, 9, 10, 11, 12, 13, 16, 17, 24, 33]),
         "ising_2d" => ising2d_dispatch!(n, m, h, j, p[0], [0, 1, 2, 3, 4, 5, 6, 7]),
         _ => None,
-    });
+    }; for q in &prev { let _ = call(q); } call(&p) });
     match r {
         None => json!({"r": "harness_error", "e": format!("no instantiation for {} n={} m={}", kind, n, m)}),
         Some(Ok(hm)) => json!({"r": "ok", "terms": sum_json(&hm)}),
